@@ -80,6 +80,8 @@ def exec_HIST(t):
                             src_(val)
                             if src_.status['inaccuracy'] and A.codes_of(src_) == A.codes_of(val):
                                 val = src_
+                if size == 0 and hist_of(len(out), len(qs), *[int(q * 4) % 1013 for q in qs]) % 5 == 1 and C.ok_for('decimal', qs):
+                    val = C.build('decimal', qs)[0]      # the same value as a decimal.Decimal: inexact writes are flagged and notified (D78)
                 if parts[0] == 'W':
                     x(val)
                 else:
